@@ -40,7 +40,11 @@ async<void> reader() {
 }
 }
 
-extern "C" void h_pub_conc() {
+bool g_ahead = false;      // entry h_pub_conc_ahead: one published value is still unread when next() is awaited (await_ready() moves onto it, await_resume() fetches it)
+void pub_conc();
+extern "C" void h_pub_conc() { g_ahead = false; pub_conc(); }
+extern "C" void h_pub_conc_ahead() { g_ahead = true; pub_conc(); }
+void pub_conc() {
     vf_warmup();
     const int mode = vf_choice(3);
     const int cfg = vf_choice(3);
@@ -61,6 +65,7 @@ extern "C" void h_pub_conc() {
                     bool r = sub.next_ready();
                     c.log[c.nlog++] = r ? sub.value() : END;
                 }
+                if (g_ahead) pub_op(0);
                 bkind = vf_choice(4);
                 const int k = 1 + vf_choice(4);
                 vf_inject_arm(&injected, k);
